@@ -21,7 +21,7 @@ HARNESS_FEATURES = 'parallel'
 SHARDS = 16
 XCHECK = {'quick': 120, 'thorough': 400}
 
-TS = [1, 2, 3, 4, 5, 7, 8, 15, 16, 17, 31, 64]
+TS = [1, 2, 3, 4, 5, 6, 7, 8, 11, 15, 16, 17, 31, 64]
 
 # cfg_id -> (name, p, multiplicative generator, small_subgroup_base, small_subgroup_power)
 FIELDS = {
@@ -279,7 +279,9 @@ def gen(rng, tier):
     for cid, k in r2:
         f = FL[cid]
         n = 1 << k
-        ts = TS if k <= 10 else ([1, 2, 3, 8, 17, 64] if not thorough else TS)
+        # sizes >= 2^11 take the in-chunk parallel butterfly path (gap > 1024): thread counts that do not divide the gap
+        # (6, 7, 10, 11, 14, 15) split the roots table and the butterflies by different roundings there
+        ts = TS if k <= 10 else ([1, 2, 3, 6, 7, 8, 10, 11, 14, 15, 17, 64] if not thorough else TS + [10, 14, 24])
         offs = offsets(f)[:3] if k <= 9 else [offsets(f)[0], offsets(f)[rng.choice([1, 2])]]
         lens = sorted({n, n // 4, n // 4 + 1, rng.choice([1, n // 2, n - 1])})
         if k > 10:
